@@ -420,7 +420,7 @@ def gen_violating(rng, name, content):
            "header_line_removed", "header_frame_short", "header_slashes", "header_after_blank", "header_field_removed",
            "stray_eol_preproc", "stray_eol_preproc"]
     # violations at extreme positions: as late as possible in the longest function / in the file, after a long preamble
-    ops += ["comment_in_func_late", "decl_late", "late_include", "long_preamble", "comment_in_func_late"]
+    ops += ["comment_in_func_late", "decl_late", "late_include", "long_preamble", "comment_in_func_late", "upper_decl", "upper_global"]
     if name.endswith(".h"):
         # include-guard mutations (4.14)
         ops += ["guard_no_define", "guard_no_define", "guard_wrong_symbol", "guard_lower", "guard_doubled", "decl_before_guard",
@@ -473,6 +473,23 @@ def gen_violating(rng, name, content):
                 j -= 1
             ind = lines[j][:len(lines[j]) - len(lines[j].lstrip("\t"))] or "\t"
             lines.insert(j, f"{ind}/* late */" if op == "comment_in_func_late" else f"{ind}int\tlate_var;")
+        return "\n".join(lines), op
+    if op == "upper_decl":
+        import re
+        for j, ln in enumerate(lines):
+            m = re.match(r"^\t(int|char|long|size_t|unsigned int)\t+\*?([a-z_]+)(\[\d+\])?;$", ln)
+            if m and j > 11:
+                old_name = m.group(2)
+                new_name = old_name.upper() if rng.random() < 0.5 else old_name.capitalize()
+                pat = re.compile(r"\b" + re.escape(old_name) + r"\b")
+                k = j
+                while k < len(lines) and lines[k] != "}":
+                    lines[k] = pat.sub(new_name, lines[k])
+                    k += 1
+                break
+        return "\n".join(lines), op
+    if op == "upper_global":
+        lines[12:12] = ["int\tBadGlobal;", "char\t*g_Names;", ""]
         return "\n".join(lines), op
     if op == "late_include":
         lines += ["#include <string.h>", ""] if lines and lines[-1] == "" else ["", "#include <string.h>"]
